@@ -18,7 +18,8 @@ open Fs.Patch Fs.Cli
 
 /-! ## Part 1 — patch() -/
 
-/-- **Restoration, for every target list and every way of leaving the block** (normal exit, exception in the body,
+/-- **Restoration, for every target list and every way of leaving the block** (normal exit, an `Exception` in the body, a
+    `BaseException` such as SystemExit / KeyboardInterrupt, the enclosing generator being closed — `x` ranges over all of `Exit` —,
     patch() failing while it sets up — missing module, missing attribute, non-snowflake function — and refusal):
     afterwards (a) every attribute that existed before, hence every standard and extra target, is the very object it
     was before; (b) no mock made by fakesnow is left anywhere that did not already exist before — in particular not
